@@ -355,7 +355,8 @@ func (t *GzipPacked) UnmarshalTL(d *tl.Decoder) error {
 		return err
 	}
 
-	t.Obj, err = tl.DecodeUnknownObject(obj)
+	// packed object can be a vector too, so predictions of outer decoder are required here
+	t.Obj, err = tl.DecodeUnknownObject(obj, d.GetExpectedTypes()...)
 	if err != nil {
 		return errors.Wrap(err, "parsing gzipped object")
 	}
